@@ -2,6 +2,7 @@ package main
 
 import (
 	"image/color"
+	"math"
 	"strings"
 
 	"github.com/boombuler/barcode"
@@ -60,7 +61,18 @@ func pdfScheme(id int) barcode.ColorScheme {
 // pdfnrows <m> <k> <c>        -> calculateNumberOfRows
 // pdfec <level> <codewords>   -> Compute
 // pdfdata <level> <cols> <cw> -> encodeData
+// pdfdim <dataWords> <eccWords> -> "cols rows" chosen by calcDimensions (hook VerifCalcDimensions)
+// pdfauto <level> <hex data>  -> describe format of Encode (the model answers with pdf_encode_auto)
+// pdfdimfloat                 -> float64 vs exact-rational evaluation of calcDimensions' comparison, see pdfDimFloat
 func init() {
+	register("pdfdim", func(args []string) string {
+		c, r := pdf417.VerifCalcDimensions(atoi(args[0]), atoi(args[1]))
+		return itoa(c) + " " + itoa(r)
+	})
+	register("pdfauto", func(args []string) string {
+		return describe(pdf417.Encode(string(unhex(args[1])), byte(atoi(args[0]))))
+	})
+	register("pdfdimfloat", func(args []string) string { return pdfDimFloat() })
 	register("pdf", func(args []string) string {
 		level := byte(atoi(args[0]))
 		data := string(unhex(args[1]))
@@ -119,4 +131,67 @@ func init() {
 		}
 		return pdfInts(cw)
 	})
+}
+
+// pdfDimFloat evaluates the float64 expression of calcDimensions
+//
+//	math.Abs(newRatio-preferred_ratio) > math.Abs(ratio-preferred_ratio)      (preferred_ratio = 3.0)
+//
+// for newRatio = float64(17*c1+69)/float64(r1*2) over all shapes c1,r1 in 2..30 and ratio ranging
+// over the values the variable can hold: float64(17*c2+69)/float64(r2*2) for all c2,r2 in 2..30,
+// +Inf (= float64(69)/float64(0), stored by the first accepted candidate) and the initial 0.0; and
+// compares it with the exact rational answer |n1/d1-3| > |n2/d2-3|  <=>  |n1-3*d1|*d2 > |n2-3*d2|*d1
+// (integers; +Inf: false).  Also checks float64(69)/float64(0) = +Inf.
+// Output: "pairs=<n> agree=<k> ties=<exact ties with different ratios> inf=<T|F> diff=<c1,r1,c2,r2,float,exact;...|->"
+// where c2,r2 = 0,0 stands for +Inf and -1,-1 for the initial 0.0.
+func pdfDimFloat() string {
+	const preferred = 3.0
+	type rat struct{ c, r, n, d int }
+	var olds []rat
+	for c := 2; c <= 30; c++ {
+		for r := 2; r <= 30; r++ {
+			olds = append(olds, rat{c, r, 17*c + 69, r * 2})
+		}
+	}
+	news := append([]rat{}, olds...)
+	zeroRows, zeroCols := 0, 0
+	olds = append(olds, rat{0, 0, 17*zeroCols + 69, zeroRows * 2}) // +Inf
+	olds = append(olds, rat{-1, -1, 0, 1})                          // the initial 0.0
+	abs := func(x int) int {
+		if x < 0 {
+			return -x
+		}
+		return x
+	}
+	infOK := math.IsInf(float64(17*zeroCols+69)/float64(zeroRows*2), 1)
+	pairs, agree, ties := 0, 0, 0
+	var diff []string
+	for _, a := range news {
+		newRatio := float64(a.n) / float64(a.d)
+		for _, b := range olds {
+			ratio := float64(b.n) / float64(b.d)
+			fl := math.Abs(newRatio-preferred) > math.Abs(ratio-preferred)
+			var ex bool
+			if b.d == 0 {
+				ex = false
+			} else {
+				l, r := abs(a.n-3*a.d)*b.d, abs(b.n-3*b.d)*a.d
+				ex = l > r
+				if l == r && a.n*b.d != b.n*a.d {
+					ties++
+				}
+			}
+			pairs++
+			if fl == ex {
+				agree++
+			} else if len(diff) < 40 {
+				diff = append(diff, itoa(a.c)+","+itoa(a.r)+","+itoa(b.c)+","+itoa(b.r)+","+map[bool]string{true: "T", false: "F"}[fl]+","+map[bool]string{true: "T", false: "F"}[ex])
+			}
+		}
+	}
+	d := "-"
+	if len(diff) > 0 {
+		d = strings.Join(diff, ";")
+	}
+	return "pairs=" + itoa(pairs) + " agree=" + itoa(agree) + " ties=" + itoa(ties) + " inf=" + map[bool]string{true: "T", false: "F"}[infOK] + " diff=" + d
 }
